@@ -85,3 +85,49 @@ func VHarness_C03_UpdateAccess() {
 		}
 	}
 }
+
+// ---- plumbing of sync-function outputs on the write path (callee intercepts)
+
+func vhStubAvail1xRev(db *DatabaseCollectionWithUser, ctx context.Context, doc *Document, revid string) ([]byte, error) {
+	return []byte("{}"), nil
+}
+
+func vhStubBodyUnmarshalC03(b *Body, data []byte) error {
+	*b = Body{}
+	return nil
+}
+
+var vhC03Out struct {
+	chans        base.Set
+	access, role channels.AccessMap
+}
+
+func vhStubChannelsAndAccessC03(col *DatabaseCollectionWithUser, ctx context.Context, doc *Document, body Body, metaMap map[string]any, revID string) (base.Set, channels.AccessMap, channels.AccessMap, *uint32, string, error) {
+	return vhC03Out.chans, vhC03Out.access, vhC03Out.role, nil, "", nil
+}
+
+// VHarness_C03_ActiveRevRecalc: when an older leaf becomes current again, the channel grants and the role grants
+// the sync function produced for it reach the caller as such (not dropped, not swapped).
+func VHarness_C03_ActiveRevRecalc() {
+	vhC03Out.chans = base.Set{"A": struct{}{}}
+	vhC03Out.access = channels.AccessMap{}
+	vhC03Out.role = channels.AccessMap{}
+	grantsChan, grantsRole := vNondetBool(), vNondetBool()
+	if grantsChan {
+		vhC03Out.access["alice"] = base.Set{"news": struct{}{}}
+	}
+	if grantsRole {
+		vhC03Out.role["alice"] = base.Set{"role:editors": struct{}{}}
+	}
+	col := &DatabaseCollectionWithUser{DatabaseCollection: &DatabaseCollection{dbCtx: &DatabaseContext{}, ScopeName: base.DefaultScope, Name: base.DefaultCollection}}
+	doc := NewDocument("doc")
+	doc.SetRevTreeID("2-a")
+	chans, access, roles, _, _, err := col.recalculateSyncFnForActiveRev(context.Background(), doc, map[string]any{}, "3-b")
+	vAssert(err == nil, "recalculation succeeds")
+	vAssert(chans.Contains("A"), "the revived revision's channels reach the caller")
+	_, a := access["alice"]["news"]
+	_, r := roles["alice"]["role:editors"]
+	vAssert(a == grantsChan, "channel grants of the revived revision reach the caller as channel grants")
+	vAssert(r == grantsRole, "role grants of the revived revision reach the caller as role grants")
+	vAssert(len(access["alice"]) <= 1 && len(roles["alice"]) <= 1, "nothing else is granted")
+}
